@@ -272,12 +272,12 @@ impl IppAttributes {
             }
         }
 
-        // now the rest
-        for group in self
+        // now the rest: every group except the operation group written above
+        let first_op = self
             .groups()
             .iter()
-            .filter(|group| group.tag() != DelimiterTag::OperationAttributes)
-        {
+            .position(|group| group.tag() == DelimiterTag::OperationAttributes);
+        for (_, group) in self.groups().iter().enumerate().filter(|(i, _)| Some(*i) != first_op) {
             buffer.put_u8(group.tag() as u8);
 
             for attr in group.attributes().values() {
